@@ -332,6 +332,13 @@ def h_incoming_parked(ctx, count):
     return c03.h_parked_messages(ctx, count)
 
 
+def h_two_requests(ctx):
+    """two request entities of different kinds (owned by different protocol layers) are outstanding at once, ids left to the library: each
+    leaves once under its own id, and each reply is routed to exactly one of them"""
+    from checks import c08
+    return c08.h_history(ctx, 2, 2, ("lastseen", "picture-get", "group-info", "ping"))
+
+
 def h_outgoing_sync_reply(ctx, kind):
     """request entities whose result the protocol layers turn into an entity: the answer may arrive while the request is still on its way down"""
     from checks import c08
@@ -363,6 +370,7 @@ def cases(tier):
         cs.append(dict(name="out-after-failed-send[%s]" % n.split(":")[-1], fn=h_outgoing_after_failure, args=(n, "all", True), max_paths=2000))
     for k in ("lastseen", "group-info", "picture-get", "media-upload", "groups-list"):
         cs.append(dict(name="out-answered-during-send[%s]" % k, fn=h_outgoing_sync_reply, args=(k,), max_paths=2000))
+    cs.append(dict(name="out[two requests of different kinds outstanding, 2 replies]", fn=h_two_requests, max_paths=20000, timeout_s=300))
     for count in (1, 2, 3):
         cs.append(dict(name="in-encrypted[%d messages parked until the sender's keys arrive]" % count, fn=h_incoming_parked, args=(count,), max_paths=2000))
     for enctype in ("pkmsg", "msg", "skmsg", "pkmsg+skmsg"):
